@@ -38,3 +38,49 @@ Theorem C01_eval_node_is_peval :
       eval_node G names sw steady t U c = bind (peval G names sw steady t U) (fun r => Ok (r, c')).
 Proof. exact eval_node_nodup. Qed.
 Print Assumptions C01_eval_node_is_peval.
+
+(** ---- the entry-point model ---- *)
+From HCTL Require Import Pipeline LayoutFacts PipelineFacts Termination.
+
+(** [check_trees] (the model of _model_check_multiple_trees_dirty), in the mode whose context
+    marks no duplicates, returns for every formula of the batch exactly its satisfying
+    valuations -- for every world whose tables are well-shaped and whose unit set constrains
+    colours only (what lib-param-bn provides; checked on every generated case by the harness) *)
+Theorem C01_check_trees_correct :
+  forall (w : world) (k : nat),
+    List.Forall (shaped (Lpn (w_p w) (w_n w))) (w_upd w) ->
+    shaped (Lpn (w_p w) (w_n w)) (w_unit w) ->
+    (forall v v', (forall j, v (TP j) = v' (TP j)) ->
+       mem (Lpn (w_p w) (w_n w)) (w_unit w) v = mem (Lpn (w_p w) (w_n w)) (w_unit w) v') ->
+    length (w_names w) <= w_n w ->
+    forall (Gamma : str -> val -> Prop) m ts rs,
+      m_ext m = false -> m_sanitize m = false -> m_unsafe_ex m = false -> m_nocache m = true ->
+      List.Forall plainf ts -> List.Forall (supported (genv_of w k)) ts ->
+      check_trees w k m ts [] [] = Ok rs ->
+      List.Forall2 (fun t R => forall v,
+         mem (g_L (genv_of w k)) R v = true <->
+         (mem (g_L (genv_of w k)) (unit_of w k) v = true /\ sat (genv_of w k) (w_names w) Gamma t v)) ts rs.
+Proof. exact check_trees_nocache_correct. Qed.
+Print Assumptions C01_check_trees_correct.
+
+(** the graphs built by the pipeline satisfy the well-formedness assumptions of the theorems
+    above (they are not vacuous) *)
+Theorem C01_world_wf :
+  forall p n k (upd_pn : list tt) (unit_pn : tt) (names : list str),
+    List.Forall (shaped (Lpn p n)) upd_pn -> shaped (Lpn p n) unit_pn ->
+    (forall v w, (forall j, v (TP j) = w (TP j)) -> mem (Lpn p n) unit_pn v = mem (Lpn p n) unit_pn w) ->
+    length names <= n ->
+    wf_env (mk_genv p n k upd_pn) names (expand not_extra (mk_layout p n k) unit_pn).
+Proof. exact mk_genv_wf. Qed.
+Print Assumptions C01_world_wf.
+
+(** the evaluator always terminates with a result on plain supported formulae with known
+    propositions: the fuel of every fixed-point loop suffices, nothing panics *)
+Theorem C01_peval_total :
+  forall G names sw steady U t,
+    NoDup (g_L G) -> (forall i, shaped (g_L G) (upd_of G i)) ->
+    shaped (g_L G) steady -> shaped (g_L G) U ->
+    plainf t -> supported G t -> props_known names t ->
+    exists R, peval G names sw steady t U = Ok R /\ shaped (g_L G) R.
+Proof. intros; eapply peval_total; eauto. Qed.
+Print Assumptions C01_peval_total.
